@@ -3,7 +3,7 @@
    The model is Html/Model.v (all of /repo/html/lex.go and ToHash over the generated table); [run c n l] is a
    caller that calls Next n times whatever it returns; [cfg_ok c] says the two template delimiters contain no
    NUL byte (c = no_tmpl: NewLexer; the six predefined pairs satisfy it, cfg_ok_predefined). *)
-From Verif Require Import Common.Base Common.Lx Gen.Tables Html.Model Html.ListLemmas Html.Safety Html.Step Html.Spec Html.RawText Html.Proofs Html.Template Html.Wf Html.WfDoc Html.EndTag Html.TemplateMore Html.Script.
+From Verif Require Import Common.Base Common.Lx Gen.Tables Html.Model Html.ListLemmas Html.Safety Html.Step Html.Spec Html.RawText Html.Proofs Html.Template Html.Wf Html.WfDoc Html.EndTag Html.TemplateMore Html.Script Html.TemplateAll.
 
 (* C01 — no panic, no endless loop: n calls of Next succeed on every byte string, with or without template
    delimiters, whatever the caller does after an error. *)
@@ -267,3 +267,34 @@ Theorem html_template_rawtext_converse :
     exists p q, lpos (lz l) <= p /\ q <= lpos (lz l') /\ is_region c d p q.
 Proof. exact html_template_rawtext_converse_proof. Qed.
 Print Assumptions html_template_rawtext_converse.
+
+(* C09 — templates, EVERY context (full, the "only if" half of the property's last sentence): for every delimiter
+   pair, every input and every state reached, whatever token Next returns (text, template, tag parts, attributes, end
+   tags, comments, CDATA, doctype, bogus comments, raw text, script sections, svg / math / xml), if it reports
+   HasTemplate() = true then a delimited region [p,q) lies inside the bytes the call consumed.  (Proved by one
+   invariant over every loop whose first test is l.skipTemplate(): Model.with_tmpl / Safety.with_tmpl_inv.)
+   The "if" half (a region that starts where the lexer looks is never split and sets the flag) is proved per context:
+   html_template_atomic (text), html_template_atomic_attr_partial / _attr_value_partial (attributes),
+   html_template_atomic_rawtext_partial (raw text); for comments, doctype, CDATA, bogus comments, end tags and svg /
+   math / xml it is covered by the witnesses below and the Go oracle.  Positions at which the lexer does not look:
+   plaintext content (finding c09-template:plaintext, next theorem); the letters it jumps over after '<' or "</" in
+   raw text, script "<!--" sections and svg / math content; the bytes of "<!--", "<![CDATA[", "<?" and of the
+   terminators "-->", "]]>", "?>" it moves over at once; whitespace, '=' and the closers '>' "/>" inside a tag;
+   the first two bytes of "</", "<!", "<?" and the first letter of a tag name. *)
+Theorem html_template_flag_sound :
+  forall c d l ty tk l', cfg_ok c -> tb c <> [] -> html_inv d l -> next c l = Ok (ty, tk, l') -> lhas l' = true ->
+    exists p q, lpos (lz l) <= p /\ q <= lpos (lz l') /\ is_region c d p q.
+Proof. intros c d l ty tk l' Hc Htb. exact (html_template_flag_sound_proof c d Hc Htb l ty tk l'). Qed.
+Print Assumptions html_template_flag_sound.
+
+(* C09 refuted — plaintext is the one context in which the lexer does not look for delimiters: <plaintext>a{{x}}b
+   gives the Text token "a{{x}}b" with HasTemplate() = false although it contains the region {{x}} (the region is
+   not split: the token runs to the end of input).  Finding c09-template:plaintext. *)
+Theorem html_template_plaintext_refuted :
+  let d := [60;112;108;97;105;110;116;101;120;116;62;97;123;123;120;125;125;98] in
+  is_region go_tmpl d 12 17 /\
+  exists tr, run go_tmpl 3 (new_lexer d) = Ok tr /\
+    map (fun r => (fst (fst r), snd (fst r), lhas (snd r))) tr =
+      [(StartTagT, Some (mkSl 0 10), false); (StartTagCloseT, Some (mkSl 10 1), false); (TextT, Some (mkSl 11 7), false)].
+Proof. exact html_template_plaintext_refuted_proof. Qed.
+Print Assumptions html_template_plaintext_refuted.
